@@ -67,6 +67,7 @@ fn main() {
         }
         i += 1;
     }
+    install_crash_handler();
     // panics of the implementation are caught and classified; keep stderr quiet
     if std::env::var("VERIF_PANIC_TRACE").is_err() {
         std::panic::set_hook(Box::new(|_| {}));
